@@ -455,7 +455,9 @@ class Randomizer(RandIF):
             btor.Assert(c[1])
                 
         if btor.Sat() != btor.SAT:
-            raise Exception("internal error: system should solve")
+            # The conflict involves more constraints than the subsets 
+            # tried above combine: report what remains as one problem set
+            problem_sets.append(tuple(diagnostic_constraint_l))
         
         # Okay, we now have a constraint system that solves, and
         # a list of constraints that are a problem. We want to 
